@@ -76,6 +76,8 @@ def rand_exec(rng, nops):
         if K == "hashset":
             cands += ["appendall", "appendall", "rmall", "rmall"]
         cands += ["swap", "swap"]
+        if rng.random() < 0.15:                # the container itself as the argument (an assignment / swap / bulk op like any other)
+            cands = ["swapself"] + (["assignself"] if K != "poolmap" else []) + (["appendself", "rmself"] if K == "hashset" else [])
         op = rng.choice(cands)
         if op in ("append", "prepend"):
             ops.append("%s %d %d %d 0" % (op, i, k, v))
@@ -113,6 +115,10 @@ def rand_exec(rng, nops):
         elif op == "clear":
             ops.append("clear %d 0 0 0" % i)
             keys[i] = []
+        elif op in ("swapself", "assignself", "appendself", "rmself"):
+            ops.append("%s %d 0 0 0" % (op, i))
+            if op == "rmself":
+                keys[i] = []
         elif not same:
             continue
         elif op == "swap":
